@@ -17,7 +17,8 @@ RULE = (
     "large-offset families, a fill set aimed at its edges, probe values x, and sub-range queries (low, high) inside the "
     "binned domain with endpoints on edges, between edges and within rounding distance of edges; 2-D trees Bin x Bin, "
     "SparselyBin x SparselyBin, IrregularlyBin x IrregularlyBin with (x, y) data incl. out-of-range and NaN; Categorize "
-    "with labels.  Oracle: full range - len(bin_edges) == num_bins + 1 == len(bin_centers) + 1 == len(bin_entries) + 1, "
+    "with labels; a SparselyBin filled with +-inf besides finite values (its dense views are only probed through "
+    "num_bins / bin_edges and, when small, bin_entries / bin_centers).  Oracle: full range - len(bin_edges) == num_bins + 1 == len(bin_centers) + 1 == len(bin_entries) + 1, "
     "edges non-decreasing, each centre within its edges, bin_width consistent with the edge differences, entries equal "
     "to the stored contents (gaps of sparse histograms are zeros); probe - x filled alone into an empty copy moves one "
     "slot, x lies within that bin's reported edges (bit-exact for CentrallyBin / IrregularlyBin, whose edges are the very "
@@ -219,10 +220,65 @@ def strategy(tier):
         fills = [[draw(st.sampled_from(("a", "b", "c", "dd", ""))), draw(st.sampled_from((1.0, 2.0, 0.5)))] for _ in range(n)]
         return {"mode": "cat", "fills": fills, "labels": draw(st.lists(st.sampled_from(("a", "b", "c", "dd", "", "zz")), max_size=4))}
 
-    return st.one_of(one_d(), one_d(), one_d(), two_d(), cat())
+    @st.composite
+    def sparse_inf(draw):
+        # +-inf is a value like any other to fill (it lands in a sentinel bin of a SparselyBin); the dense views of
+        # such a histogram are checked separately because they cannot be enumerated
+        c = draw(gen.sparse_cfgs())
+        cfg = {"binWidth": c["binWidth"], "origin": c["origin"]}
+        vals = st.sampled_from(crit_1d("SparselyBin", cfg))
+        fills = [[draw(vals), 1.0] for _ in range(draw(st.integers(0, 6)))]
+        infs = draw(st.lists(st.sampled_from((float("inf"), float("-inf"))), min_size=1, max_size=3))
+        return {"mode": "sparse-inf", "kind": "SparselyBin", "cfg": cfg, "fam": c["fam"], "fills": fills, "infs": infs, "numpy": draw(st.booleans())}
+
+    return st.one_of(one_d(), one_d(), one_d(), one_d(), one_d(), one_d(), two_d(), two_d(), cat(), cat(), sparse_inf())
 
 
 # ---------------------------------------------------------------------------------------------------------
+
+
+def check_sparse_inf(case):
+    """A SparselyBin that was filled with +-inf (sentinel bins): the full-range views must still be usable."""
+    cfg = case["cfg"]
+    h = build_1d("SparselyBin", cfg)
+    for x, w in case["fills"]:
+        h.fill({"x": x}, w)
+    if case["numpy"]:
+        h.fill.numpy({"x": np.array(case["infs"], dtype=np.float64)})
+    else:
+        for x in case["infs"]:
+            h.fill({"x": x}, 1.0)
+    sig = {"kind": "SparselyBin", "datum": "inf"}
+    what = f"SparselyBin {cfg} filled with {[x for x, _ in case['fills']]} and {case['infs']}"
+    # the infinite data are retrievable by value
+    for x in set(case["infs"]):
+        got = h.bin_entries(xvalues=[x])
+        require(len(got) == 1 and got[0] == float(case["infs"].count(x)), "xvalues-wrong", f"{what}: bin_entries(xvalues=[{x!r}]) = {list(got)}", dict(sig, accessor="bin_entries(xvalues)"))
+    try:
+        edg = h.bin_edges()
+        n = h.num_bins()
+    except Exception as e:  # noqa: BLE001
+        raise Violation("sparse-infinite-datum-views", f"{what}: bin_edges() / num_bins() raised {type(e).__name__}: {e} (num_bins() = {_safe_num_bins(h)})", dict(sig, accessor="bin_edges")) from None
+    span = int(max(h.bins)) - int(min(h.bins)) + 1  # in Python ints: numpy.int64 indexes (fill.numpy) wrap around
+    require(n == span or n <= 10**7, "sparse-infinite-datum-views", f"{what}: num_bins() = {n} but the filled indexes span {span}", dict(sig, accessor="num_bins"))
+    require(span <= 10**7 and n <= 10**7, "sparse-infinite-datum-views", f"{what}: num_bins() = {n}: the dense views (bin_entries, bin_centers, mpv) enumerate that many bins", dict(sig, accessor="num_bins"))
+    try:
+        ent, cen = h.bin_entries(), h.bin_centers()
+    except Exception as e:  # noqa: BLE001
+        raise Violation("sparse-infinite-datum-views", f"{what}: bin_entries() / bin_centers() raised {type(e).__name__}: {e}", dict(sig, accessor="bin_entries")) from None
+    # (one root cause - the sentinel bins take part in the dense views - so one kind for every inconsistency here)
+    require(len(edg) == n + 1 and len(ent) == n and len(cen) == n, "sparse-infinite-datum-views", f"{what}: lengths of edges / entries / centres are {len(edg)} / {len(ent)} / {len(cen)} for num_bins() = {n}", dict(sig, accessor="lengths"))
+    require(all(a <= b for a, b in zip(edg, edg[1:])), "sparse-infinite-datum-views", f"{what}: bin_edges() is not non-decreasing", dict(sig, accessor="bin_edges"))
+    filled = sum(w for _, w in case["fills"])
+    require(sum(ent) in (filled, filled + len(case["infs"])), "sparse-infinite-datum-views", f"{what}: bin_entries() sums to {sum(ent)}", dict(sig, accessor="bin_entries"))
+    return {"nontrivial": bool(case["fills"]), "labels": ["mode:sparse-inf", "kind:SparselyBin", "fam:" + case["fam"]]}
+
+
+def _safe_num_bins(h):
+    try:
+        return h.num_bins()
+    except Exception as e:  # noqa: BLE001
+        return f"<{type(e).__name__}>"
 
 
 def check_1d(case):
@@ -536,6 +592,8 @@ def check(case):
             return check_1d(case)
         if case["mode"] == "2d":
             return check_2d(case)
+        if case["mode"] == "sparse-inf":
+            return check_sparse_inf(case)
         return check_cat(case)
     except Violation:
         raise
